@@ -7,6 +7,8 @@ BadOf(i, ev) ==
       n \in { n \in AggregatesE : ~Agree(WantE(ev, n), Ok(ev.r, n), V(ev.r, n)) } }
     \cup { [prop |-> "C05", line |-> i, fn |-> "CS_Photo_Partial", Z |-> ev.Z, shell |-> s, E |-> FStr(ev.E), got |-> [ok |-> ev.p[s + 1][1] = 1, v |-> FStr(ev.p[s + 1][2])], want |-> Show(WantPartial(ev, s))] :
            s \in { s \in 0..30 : ~Agree(WantPartial(ev, s), ev.p[s + 1][1] = 1, ev.p[s + 1][2]) } }
+    \cup { [prop |-> "C05", line |-> i, fn |-> ev.tw[j].n, Z |-> ev.Z, shell_or_line |-> ev.tw[j].m, E |-> FStr(ev.E), got |-> [ok |-> ev.tw[j].b[1] = 1, v |-> FStr(ev.tw[j].b[2])], want |-> Show(WantTwin(ev, ev.tw[j]))] :
+           j \in { j \in 1..Len(ev.tw) : ~Agree(WantTwin(ev, ev.tw[j]), ev.tw[j].b[1] = 1, ev.tw[j].b[2]) } }
   ELSE IF ev.k = "aggA" THEN
     { [prop |-> "C05", line |-> i, fn |-> n, Z |-> ev.Z, E |-> FStr(ev.E), theta |-> FStr(ev.th), phi |-> FStr(ev.ph), got |-> [ok |-> Ok(ev.r, n), v |-> FStr(V(ev.r, n))], want |-> Show(WantA(ev, n))] :
       n \in { n \in AggregatesA : ~Agree(WantA(ev, n), Ok(ev.r, n), V(ev.r, n)) } }
